@@ -385,6 +385,7 @@ class FactBase:
         self._callers = None
         self._by_name = None
         self._canonicalise()
+        self._normalise_renames()
 
     def _canonicalise(self):
         """Cross-crate callees are printed by rustc through their re-exported path; rewrite them to the id the
@@ -403,6 +404,72 @@ class FactBase:
                     t.callee = by_key[fk].id
                 if fk in by_key:
                     t.declared = by_key[fk].id
+
+    def _normalise_renames(self):
+        """Rules name functions; a pure rename of one of the named functions must not blind them. For every function
+        recorded in rules/anchors.json (all functions any rule refers to by name, with their signature on the pinned
+        tree) that is missing from the loaded crates, the unique function of the same crate with the same parameter
+        types, return type and impl self type / trait - and not itself a recorded function - is given the recorded id
+        back (ids, closure ids and every call edge are rewritten in the fact base). Substitutions are listed in
+        FactBase.renamed and end up in the evidence notes. Ambiguous cases are left alone (the anchor then fails)."""
+        if FactBase._anchor_table is None:
+            try:
+                with open(os.path.join(os.path.dirname(os.path.abspath(__file__)), "anchors.json")) as fh:
+                    FactBase._anchor_table = json.load(fh)
+            except OSError:
+                FactBase._anchor_table = {}
+        table = FactBase._anchor_table
+        crates = {f.crate for f in self.fns.values()}
+        known = {v["id"] for v in table.values()}
+        ren = {}
+        for rx, rec in table.items():
+            if rec["crate"] not in crates or rec["id"] in self.fns or rec["id"] in ren.values():
+                continue
+            cands = [f for f in self.fns.values() if f.crate == rec["crate"] and not f.root and f.id not in known
+                     and f.id not in ren and f.impl_for == rec["impl_for"] and f.j.get("trait") == rec["trait"] and f.ret == rec["ret"]
+                     and [f.local_ty(i) for i in range(1, f.argc + 1)] == rec["argtys"]]
+            same_file = [f for f in cands if f.file == rec["file"]]
+            pick = same_file if len(same_file) == 1 else cands
+            if len(pick) == 1:
+                ren[pick[0].id] = rec["id"]
+        if not ren:
+            return
+
+        def rn(x):
+            if not isinstance(x, str):
+                return x
+            for old, new in ren.items():
+                if x == old or x.startswith(old + "::{"):
+                    return new + x[len(old):]
+            return x
+        for f in list(self.fns.values()):
+            nid = rn(f.id)
+            if nid != f.id:
+                if f.id in ren:
+                    f.name = nid.split("::")[-1]
+                    f.j["name"] = f.name
+                    msg = "function %s is analysed under its recorded name %s (same signature, unique: a rename)" % (f.id, nid)
+                    if msg not in FactBase.renamed:
+                        FactBase.renamed.append(msg)
+                f.id = nid
+                f.j["id"] = nid
+            f.root = rn(f.root)
+            for b in f.blocks:
+                t = b.term
+                if t.op == "call":
+                    t.callee, t.declared = rn(t.callee), rn(t.declared)
+                    for a in t.args:
+                        c = a.get("const") if isinstance(a, dict) else None
+                        if c and "fn" in c:
+                            c["fn"] = rn(c["fn"])
+                for st in b.stmts:
+                    if st.j.get("def"):
+                        st.j["def"] = rn(st.j["def"])
+                    for a in st.ops:
+                        c = a.get("const") if isinstance(a, dict) else None
+                        if c and "fn" in c:
+                            c["fn"] = rn(c["fn"])
+        self.fns = {f.id: f for f in self.fns.values()}
 
     def _load(self, path):
         self.files_loaded.append(path)
@@ -434,10 +501,42 @@ class FactBase:
 
     def one(self, pattern, crate=None):
         r = self.find(pattern, crate)
+        if not r:
+            g = self._by_signature(pattern)
+            if g is not None:
+                return g
         if len(r) != 1:
             raise AnchorError("anchor %r: expected exactly one function, found %d: %s" %
                               (pattern, len(r), [f.id for f in r][:6]))
         return r[0]
+
+    _anchor_table = None
+    renamed = []
+
+    def _by_signature(self, pattern):
+        """A name anchor that no longer matches: follow a pure rename. The function recorded for this anchor on the
+        pinned tree (rules/anchors.json) is looked up by its signature - same crate, same parameter and return types,
+        same impl self type / trait - among the functions that did not exist under that id before. Only a unique
+        candidate is accepted; the substitution is listed in FactBase.renamed (copied into the evidence notes)."""
+        if FactBase._anchor_table is None:
+            try:
+                with open(os.path.join(os.path.dirname(os.path.abspath(__file__)), "anchors.json")) as fh:
+                    FactBase._anchor_table = json.load(fh)
+            except OSError:
+                FactBase._anchor_table = {}
+        rec = FactBase._anchor_table.get(pattern)
+        if not rec or rec["id"] in self.fns:
+            return None
+        known = {v["id"] for v in FactBase._anchor_table.values()}
+        cands = [f for f in self.fns.values() if f.crate == rec["crate"] and not f.root and f.id not in known
+                 and f.impl_for == rec["impl_for"] and f.j.get("trait") == rec["trait"] and f.ret == rec["ret"]
+                 and [f.local_ty(i) for i in range(1, f.argc + 1)] == rec["argtys"]]
+        same_file = [f for f in cands if f.file == rec["file"]]
+        pick = same_file if len(same_file) == 1 else cands
+        if len(pick) == 1:
+            FactBase.renamed.append("anchor %s: %s not found; using %s (same signature, unique)" % (pattern, rec["id"], pick[0].id))
+            return pick[0]
+        return None
 
     def methods(self, name, impl_for=None, trait=None, crate=None):
         """Assoc fns by name, optionally restricted by regexes on the impl's self type / trait."""
